@@ -56,6 +56,7 @@ def run(prop, repo, flagset, tier):
         return {"obligations": [{"rule": prop + ".cload", "key": "clang", "status": "undecided", "where": "?",
                                  "detail": "loading the C glue failed: %s" % e}], "floors": {}, "stats": {}}
     c = Ctx(prog, prop)
+    cast.SIZEOF_HOOK = program_sizeof_hook(prog)
     c.stats["c_functions_parsed"] = len(prog.funcs)
     c.stats["c_cfg_nodes"] = 0
     try:
@@ -324,6 +325,9 @@ def rule_pairing_core(c, rule):
 
 
 def rule_C02(c):
+    # R6: keys and signatures handed to the pairing code are used as affine points only after a conversion (= C04.R5)
+    c.floor("C02.R6", 2)
+    rule_affine_casts(c, "C02.R6")
     c.floor("C02.R1", 8)
     c.floor("C02.R4", 2)
     c.floor("C02.R5", 3)
@@ -357,7 +361,17 @@ def rule_C02(c):
         if not g:
             continue
         nacc = 0
-        for h in [n for n in g.nodes if n.kind == "loophead"]:
+        # loops written in the function itself: a loop that belongs to the body of a helper analysed in place keeps the
+        # helper's own counters, which are not running offsets of the grouping
+        fd_ = c.p.funcs[fn]
+        own_file = fd_.get("_file")
+        own_lines = [x.get("_line") for x in walk(fd_) if isinstance(x.get("_line"), int) and x.get("_file") == own_file]
+        lo_, hi_ = (min(own_lines), max(own_lines)) if own_lines else (0, 1 << 30)
+
+        def own_loop(h_):
+            st_ = h_.stmt or {}
+            return (st_.get("_file") in (None, own_file)) and isinstance(h_.line, int) and lo_ <= h_.line <= hi_
+        for h in [n for n in g.nodes if n.kind == "loophead" and own_loop(n)]:
             brs = [s_ for s_ in h.succ if s_ is not None and s_.kind == "branch"]
             latch = [n for n in g.nodes if n.kind == "stmt" and n.tag == "inc" and h in n.succ]
             if not brs or not latch:
@@ -748,6 +762,38 @@ def rule_reader_discipline(c, rule, skip=("bls_batch_verify",)):
     return n_sites
 
 
+def _constructed_point_ctx(c, fn, pidx, depth):
+    """fn is a glue helper the rules do not know, and every call of it passes, as parameter pidx, the point that a
+    point reader (E1_read_bytes / E2_read_bytes) is constructing (its own first parameter), possibly through further
+    such helpers"""
+    try:
+        from cvocab import CVOCAB
+    except Exception:
+        CVOCAB = set()
+    if fn in CVOCAB or depth > 3:
+        return False
+    sites = 0
+    for caller, fd in c.p.funcs.items():
+        cparams = [p_["name"] for p_ in c.p.params(caller)]
+        for e in walk(fd):
+            if e.get("kind") != "CallExpr" or callee_name(e) != fn:
+                continue
+            args = e["inner"][1:]
+            if pidx >= len(args):
+                return False
+            sites += 1
+            a = strip(args[pidx])
+            rd = a.get("referencedDecl", {}) if a.get("kind") == "DeclRefExpr" else {}
+            if rd.get("kind") != "ParmVarDecl" or rd.get("name") not in cparams:
+                return False
+            ci = cparams.index(rd["name"])
+            if caller in ("E1_read_bytes", "E2_read_bytes") and ci == 0:
+                continue
+            if not _constructed_point_ctx(c, caller, ci, depth + 1):
+                return False
+    return sites > 0
+
+
 def rule_affine_casts(c, rule):
     """A glue point (E1/E2, Jacobian in general) may be reinterpreted as a BLST affine point only where the
     object is affine by construction: inside the on-curve checkers (documented affine parameter) or on a local
@@ -803,6 +849,8 @@ def rule_affine_casts(c, rule):
                 m_ += 1
                 if params and base == params[0] and fn in ("E1_read_bytes", "E2_read_bytes"):
                     continue  # constructor of the point from its affine coordinates
+                if base in params and _constructed_point_ctx(c, fn, params.index(base), 0):
+                    continue  # a piece of such a constructor moved into a helper (only ever called on the object being built)
                 ok = False
                 for m, call in g.calls():
                     if callee_name(call) in ("E1_to_affine", "E2_to_affine") and base_name(g.r(call["inner"][1])) == base and g.dominates(m, node):
@@ -1163,6 +1211,32 @@ def _sizeof_types(repo, flagset, types):
         return out
 
 
+def _sizeof_arg_type(node):
+    at = (node.get("argType") or {}).get("desugaredQualType") or (node.get("argType") or {}).get("qualType")
+    if not at:
+        inner = [x for x in node.get("inner", []) if isinstance(x, dict)]
+        at = _type_of(strip(inner[0])) if inner else None
+    return re.sub(r"^const\s+", "", at) if at else None
+
+
+def program_sizeof_hook(prog):
+    """sizeof evaluation for cast.const_eval: the table is computed once per loaded program (one clang run) over every
+    sizeof expression of the repository-owned function bodies"""
+    def hook(node):
+        if getattr(prog, "_sizeof_table", None) is None:
+            need = set()
+            for fd in prog.funcs.values():
+                for e in walk(fd):
+                    if e.get("kind") == "UnaryExprOrTypeTraitExpr" and e.get("name") == "sizeof":
+                        t = _sizeof_arg_type(e)
+                        if t:
+                            need.add(t)
+            prog._sizeof_table = _sizeof_types(prog.repo, prog.flagset, need)
+        t = _sizeof_arg_type(node)
+        return prog._sizeof_table.get(t) if t else None
+    return hook
+
+
 def rule_object_extents(c, rule, only=None):
     """Every call of a sized primitive on an object of the glue (Fr, Fp, E1, … located by the pointee type of the
     operand, never by name) covers the object: a predicate (is-zero, is-equal) must inspect exactly sizeof(object)
@@ -1191,8 +1265,8 @@ def rule_object_extents(c, rule, only=None):
                 if a.get("kind") == "UnaryOperator" and a.get("opcode") == "&":
                     inner = strip(a["inner"][0])
                     t = _type_of(inner)
-                    if t:
-                        objs.append((oi, t))
+                    if t and re.sub(r"^const\s+|\s+const$", "", t).strip() not in SCALAR_POINTEES:
+                        objs.append((oi, t))   # &limbs[k] and the like address a sub-range of limbs, not an object
                     continue
                 t = _type_of(a)
                 if not t:
@@ -1227,11 +1301,12 @@ def rule_object_extents(c, rule, only=None):
 
     seen = {}
     for fname, e, cn, kind, objs, nexpr in sites:
+        prev_hook = cast.SIZEOF_HOOK
         cast.SIZEOF_HOOK = hook
         try:
             n = const_eval(nexpr, c.p.enums)
         finally:
-            cast.SIZEOF_HOOK = None
+            cast.SIZEOF_HOOK = prev_hook
         where = "%s:%s" % (c.p.where.get(fname, "?"), e.get("_line"))
         for oi, t in objs:
             sz = table.get(re.sub(r"^const\s+", "", t))
